@@ -13,3 +13,11 @@ prop(
     "contract-based deductive verification: sidecar pre/postconditions + loop invariants, VCs from the real AST, z3/cvc5",
     "DESIGN.md section 7 C10",
 )
+
+prop(
+    "C01", "proof",
+    "Pre/post contracts on the osu kernels (column<->x for every key count, value<->code, item-line readers against the format's line grammar for all field values, classifiers, writers parsed back by the format grammar with the <1 ms bound, the key:value metadata parser/formatter for all 30 keys with values containing ':'), VCs generated from the real source and discharged by z3; float column arithmetic additionally enumerated exhaustively (18 x 514). DataFrame glue and whole-map round trips are bounded stand-ins.",
+    "A1, A3, A5 (.osu v14 grammar oracle in contracts/C01_osu.py); dialect: canonical numerals, hit-sample suffix present, file name without ', : newline'; pandas glue only bounded.",
+    "contract-based deductive verification: sidecar contracts + round-trip lemmas over the real source, z3 (LIA/LRA/strings as structured segments) + exhaustive native enumeration of the finite float domain",
+    "DESIGN.md section 7 C01",
+)
